@@ -258,12 +258,38 @@ package gen
 //@ template V in int32 int64 uint32 uint64 float32 float64 bool string
 //@ functype func(GEN.REC) {V}
 //@   modifies nothing
+// C03: the record structure of a column's level lists. Striping one record appends
+// (never rewrites) at least one level entry; a column with repetition levels gets one
+// repetition level per definition level, the first entry of the record has repetition
+// level 0 and every further entry of the same record a level >= 1 (so rep == 0 marks
+// exactly the record boundaries); a column without repetition levels gets exactly one
+// entry; there are never more values than entries.
 //@ functype func(GEN.REC, []{V}, []uint8, []uint8) ([]{V}, []uint8, []uint8)
+//@   free-requires (ref(arg2) == 0 || ref(arg2) != ref(arg3)) && (ref(arg1) == 0 || (ref(arg1) != ref(arg2) && ref(arg1) != ref(arg3)))
 //@   modifies HA(arg1), HA(arg2), HA(arg3)
 //@   ensures sameOrFresh2(res0, arg1) && sameOrFresh2(res1, arg2) && sameOrFresh2(res2, arg3)
+//@   ensures[C03] #res1 > #arg2 && #res0 >= #arg1 && #res0 - #arg1 <= #res1 - #arg2
+//@   ensures[C03] #res2 == #arg3 || (#res2 - #arg3 == #res1 - #arg2 && res2[#arg3] == 0 && (forall k in #arg3 + 1..#res2: res2[k] >= 1))
+//@   ensures[C03] #res2 == #arg3 ==> #res1 == #arg2 + 1
+//@   ensures[C03] (forall k in 0..#arg2: res1[k] == old(arg2[k])) && (forall k in 0..#arg3: res2[k] == old(arg3[k])) && (forall k in 0..#arg1: res0[k] == old(arg1[k]))
 //@ end template
 //@ loop read*#*
 //@   invariant sameOrFresh2(vals, old(vals)) && sameOrFresh2(defs, old(defs)) && sameOrFresh2(reps, old(reps))
+//@   invariant[C03] (ref(defs) == 0 || ref(defs) != ref(reps)) && (ref(vals) == 0 || (ref(vals) != ref(defs) && ref(vals) != ref(reps)))
+//@   invariant[C03] #defs >= old(#defs) && #reps - old(#reps) == #defs - old(#defs) && #vals >= old(#vals) && #vals - old(#vals) <= #defs - old(#defs)
+//@   invariant[C03] rangeindex + 1 >= 1 ==> #defs > old(#defs)
+//@   invariant[C03] (#reps == old(#reps) ==> lastRep == 0) && (#reps > old(#reps) ==> reps[old(#reps)] == 0) && (#reps > old(#reps) && rangeindex + 1 == 0 ==> lastRep >= 1)
+//@   invariant[C03] forall k in old(#reps) + 1..#reps: reps[k] >= 1
+//@   invariant[C03] (forall k in 0..old(#defs): defs[k] == old(defs[k])) && (forall k in 0..old(#reps): reps[k] == old(reps[k])) && (forall k in 0..old(#vals): vals[k] == old(vals[k]))
+//@ loop read*#1
+//@   invariant sameOrFresh2(vals, old(vals)) && sameOrFresh2(defs, old(defs)) && sameOrFresh2(reps, old(reps))
+//@   invariant[C03] (ref(defs) == 0 || ref(defs) != ref(reps)) && (ref(vals) == 0 || (ref(vals) != ref(defs) && ref(vals) != ref(reps)))
+//@   invariant[C03] #defs >= old(#defs) && #reps - old(#reps) == #defs - old(#defs) && #vals >= old(#vals) && #vals - old(#vals) <= #defs - old(#defs)
+//@   invariant[C03] rangeindex + 1 >= 1 ==> #defs > old(#defs)
+//@   invariant[C03] rangeindex + 1 == 0 ==> #reps == old(#reps)
+//@   invariant[C03] (#reps == old(#reps) ==> lastRep == 0) && (#reps > old(#reps) ==> reps[old(#reps)] == 0)
+//@   invariant[C03] forall k in old(#reps) + 1..#reps: reps[k] >= 1
+//@   invariant[C03] (forall k in 0..old(#defs): defs[k] == old(defs[k])) && (forall k in 0..old(#reps): reps[k] == old(reps[k])) && (forall k in 0..old(#vals): vals[k] == old(vals[k]))
 
 // ---- statistics accumulators (C12)
 //
